@@ -18,6 +18,10 @@ class BodyError(Exception):
     pass
 
 
+class BodyBaseError(BaseException):
+    pass
+
+
 def summarize_device(dev) -> Dict[str, Any]:
     out: Dict[str, Any] = {"cls": type(dev).__name__}
     for f in ("device_id", "device_key", "ip_address", "mac_address", "name", "power_consumption", "electric_current",
@@ -247,8 +251,10 @@ def run(scn: Dict[str, Any]) -> UdpRun:
                     await b.__aenter__()
                 elif kind == "aexit":
                     if st.get("exc"):
-                        e = BodyError("body failed")
-                        await b.__aexit__(BodyError, e, None)
+                        ecls = {"cancelled": asyncio.CancelledError, "keyboard": KeyboardInterrupt, "base": BodyBaseError,
+                                }.get(st.get("exc_kind"), BodyError)
+                        e = ecls("body failed")
+                        await b.__aexit__(ecls, e, None)
                     else:
                         await b.__aexit__(None, None, None)
                 else:
